@@ -380,7 +380,77 @@ func TestVerifC04(t *testing.T) {
 	w := newVWorld(t, seed)
 	defer w.close()
 	c04MultiMember(rep, w, thorough)
+	c04Contact(rep, w, thorough)
 	c04Concurrent(rep, w, thorough)
+}
+
+// c04Contact: a contact group in which both sides disclose their alias key, in both orders. A second device of the
+// same account that receives the same entries in any batch plan, and every device after a reopen, must report what
+// the live writer reports (members, devices and the alias fields of the index).
+func c04Contact(rep *vrep.Report, w *vWorld, thorough bool) {
+	for _, order := range [][]string{{"A", "B"}, {"B", "A"}} {
+		a1, b1 := w.newDevice("A", nextDev("k")), w.newDevice("B", nextDev("k"))
+		bAcc, err := b1.ss.GetAccountPrivateKey()
+		vmust(err)
+		g, err := a1.ss.GetGroupForContact(bAcc.GetPublic())
+		vmust(err)
+		gcs := map[string]*GroupContext{"A": a1.open(g), "B": b1.open(g)}
+		syncAll := func() {
+			w.deliver(gcs["A"].MetadataStore(), logHashes(gcs["B"].MetadataStore()))
+			w.deliver(gcs["B"].MetadataStore(), logHashes(gcs["A"].MetadataStore()))
+		}
+		for _, who := range []string{"A", "B"} {
+			_, err := gcs[who].MetadataStore().AddDeviceToGroup(w.ctx)
+			vmust(err)
+			syncAll()
+		}
+		for _, who := range order {
+			_, err := gcs[who].MetadataStore().ContactSendAliasKey(w.ctx)
+			vmust(err)
+			syncAll()
+		}
+		want := metaState(gcs["A"].MetadataStore())
+		hashes := logHashes(gcs["A"].MetadataStore())
+		viol := func(kind, desc string) {
+			rep.Violation("C04/"+kind, fmt.Sprintf("contact group, alias keys disclosed in order %v: %s", order, desc), c04Case{Scenario: "contact-alias", Detail: desc})
+		}
+		if !strings.Contains(want, "own-sent=true") || strings.Contains(want, "other=\n") {
+			viol("alias-state-incomplete", "the live writer does not hold both disclosures: "+want)
+		}
+		for _, p := range plansFor(len(hashes), false) {
+			if !thorough && len(p.Batches) > 3 {
+				continue
+			}
+			r := w.newDevice("A", nextDev("k"))
+			rgc := r.open(g)
+			for bi, b := range p.Batches {
+				var hs []cid.Cid
+				for _, i := range b {
+					hs = append(hs, hashes[i])
+				}
+				w.deliver(rgc.MetadataStore(), hs)
+				if p.Reopen == bi {
+					rgc = r.reopen(rgc)
+				}
+				rep.AddTransitions(1)
+			}
+			s := metaState(rgc.MetadataStore())
+			rep.Eval(fmt.Sprintf("contact-alias/batches=%d/reopen=%v/equal=%v", len(p.Batches), p.Reopen >= 0, s == want))
+			if s != want {
+				viol("replica-differs-from-writer", fmt.Sprintf("second device of A, plan %v reopen=%d: %s", p.Batches, p.Reopen, firstDiff(s, want)))
+			}
+			_ = rgc.Close()
+			_ = r.odb.Close()
+		}
+		ngc := a1.reopen(gcs["A"])
+		if s := metaState(ngc.MetadataStore()); s != want {
+			viol("reopen-changes-state", firstDiff(s, want))
+		}
+		rep.AddStates(1)
+		_ = ngc.Close()
+		_ = gcs["B"].Close()
+	}
+	rep.Sample(map[string]interface{}{"scenario": "contact group with alias disclosures", "orders": 2})
 }
 
 // c04MultiMember: members, devices and admins of a multi-member group after a causally ordered multi-writer history.
